@@ -209,6 +209,18 @@ def check(model: Model, run: Run) -> None:
     )
     _r10_flags_error(model, run, parse)
 
+    # ------------------------------------------------------------------ R11 a value checked for one session is not served to another
+    run.rule(
+        'C08.R11',
+        'the per-attribute cache of Attribute.unpack, keyed by the value bytes alone, serves no class whose decoder reads the '
+        'session (or is never consulted): the RFC 7606 length test of AGGREGATOR depends on the 4-byte-AS negotiation, so bytes '
+        'accepted on one session would be handed, unchecked, to a session on which they are malformed (shared with C15.R13 / C19.R8)',
+        floor=1,
+    )
+    from .C15 import attribute_cache_rule
+
+    attribute_cache_rule(model, run, folder)
+
 
 def _r10_flags_error(model: Model, run: Run, parse) -> None:
     from ..alpha import facts
